@@ -171,3 +171,20 @@ package diagnostic
 //@ loop 2 invariant prefix-names-the-conflicts-own-function (and (keyPrefixOK pass c key (strcat (strcat (. (local p) producerRepr) ";") (. (local p) consumerRepr)))
 //@    (= (call |go.uber.org/nilaway/util/tokenhelper.RelToCwd| (. (posOf pass.Pass.Fset (. (local file) FileStart)) Filename)) (. c position Filename))
 //@    (= (local file) (idx pass.Pass.Files (+ rangeindex@1 1))) (<= -1 rangeindex@1) (< (+ rangeindex@1 1) (len pass.Pass.Files)) (<= -1 rangeindex) (< rangeindex (len (. (local file) Decls))))
+
+//@ -- C14 (file table): every file of the file set is entered under its cwd-relative name, and it is classified as a
+//@ -- "fake" file (one injected for a dependency loaded from export data: one line per offset) exactly when no two
+//@ -- consecutive line starts are more than one byte apart.  toPos pads only fake files, so a real file wrongly
+//@ -- classified (or the reverse) makes positions of dependency findings meaningless.
+//@ define (noGaps f) (forall ((k Int)) (=> (and (<= 0 k) (< (+ k 1) (len f.lines))) (<= (- (idx f.lines (+ k 1)) (idx f.lines k)) 1)))
+//@ func NewEngine$1
+//@ prop C14
+//@ requires (and (not (= file nil)) (not (= files nil)))
+//@ assume line-starts-are-offsets (forall ((k Int)) (=> (and (<= 0 k) (< k (len file.lines))) (>= (idx file.lines k) 0)))
+//@ modifies (map files) (obj file)
+//@ ensures continues (= result true)
+//@ ensures entered-under-its-relative-name (let ((name (call |go.uber.org/nilaway/util/tokenhelper.RelToCwd| file.name)))
+//@    (and (mapin files name) (= (. (mapget files name) file) file) (= (. (mapget files name) isFake) (noGaps file))))
+//@ loop 0 invariant no-gap-so-far (and (<= -1 rangeindex) (< rangeindex (len file.lines)) isFake
+//@    (= prev (ite (= rangeindex -1) -1 (idx file.lines rangeindex)))
+//@    (forall ((k Int)) (=> (and (<= 0 k) (< k rangeindex)) (<= (- (idx file.lines (+ k 1)) (idx file.lines k)) 1))))
